@@ -865,7 +865,8 @@ def directed_tree(rng, kind):
         L("name %d t1" % th)
         for j in t.joints:
             L("wrap %d joint %s %r" % (th, j["name"], rng.choice((-1, 1)) * rng.uniform(1.0, 2.0)))
-        L("set %d armature %r" % (th, rng.uniform(1.0, 3.0)))
+        # armature well above the body inertias: the truncated rank-one term (one negative eigenvalue) then dominates
+        L("set %d armature %r" % (th, rng.uniform(20.0, 50.0)))
         t.ntendon = 1
     else:
         p0 = body(0, "b1", ["hinge"], site=True)
